@@ -218,6 +218,20 @@ class Repo:
         return {q[len(pre):]: f for q, f in m.funcs.items()
                 if q.startswith(pre) and '.' not in q[len(pre):]}
 
+    # ---- normalised views (new helpers inlined, spelling canonicalised); see normalise.py -----------------
+    def nfunc(self, rel, qualname):
+        from .normalise import normalised
+        return normalised(self, self.func(rel, qualname))
+
+    def nmethods(self, rel, clsname):
+        """established methods of a class, each in normalised form (helpers added later are inlined at their call sites)"""
+        from .normalise import normalised, is_established
+        out = {}
+        for name, fi in self.methods(rel, clsname).items():
+            if is_established(rel, fi.qualname):
+                out[name] = normalised(self, fi)
+        return out
+
     def with_overlay(self, overlay):
         ov = dict(self.overlay)
         ov.update(overlay)
